@@ -500,6 +500,10 @@ def check_C20(chk):
         cases.append({"id": k + 1, "plan": plan, "threads": rng.randint(1, 8)})
     lines = ["id=%d plan=%s threads=%d" % (c["id"], ";".join("%d,%d,%d" % (b, a, 1 if d else 0) for b, a, d in c["plan"]), c["threads"]) for c in cases]
     chunks = [list(range(len(cases)))[i::6] for i in range(6)]
+    # abandoned streams: a consumer drops its stream while the sender keeps sending; other streams must not notice
+    arecs, _, arc, aerr = C.run_harness(bins["async"], "async", ["id=9001 op=abandon rounds=%d k=3" % (2000 if thorough else 300),
+                                                                   "id=9002 op=abandon rounds=%d k=25" % (500 if thorough else 60)], shim=False, timeout=600)
+    abandon = [r for r in arecs if r.get("kind") == "abandon"]
 
     def run(idx):
         recs, _, rc, err = C.run_harness(bins["async"], "async", [lines[i] for i in idx], shim=False, timeout=900)
@@ -550,6 +554,16 @@ def check_C20(chk):
         todo.append((k, "check_async [%s] [%s]" % ("; ".join(pre), "; ".join(obs))))
     for c, r, why in fails[:8]:
         chk.failing_input(why, {"scenario": lines[c["id"] - 1], "observed": r}, key=lines[c["id"] - 1][:300])
+    if len(abandon) < 2:
+        fails.append((None, None, "abandon"))
+        chk.failing_input("the abandoned-stream scenario did not complete: %s" % aerr[-300:], {"scenario": "op=abandon"}, key="abandon:none")
+    for r in abandon:
+        if r["failures"]:
+            f = r["failures"][0]
+            fails.append((None, r, "abandon"))
+            chk.failing_input("a stream sharing the routing thread with an abandoned stream (consumer dropped it, sender still sending) %s"
+                              % ("never ended (watchdog)" if f.get("hang") else "yielded %s ended=%s instead of its %d messages and end-of-stream" % (f.get("items"), f.get("ended"), r["k"])),
+                              {"scenario": "op=abandon rounds=%d k=%d" % (r["rounds"], r["k"]), "first_failures": r["failures"][:3]}, key="abandon:%d" % r["k"])
     header = "From Coq Require Import List Bool.\nFrom IPC Require Import Async AsyncCheck.\nImport ListNotations.\n"
     res, errors = C.coq_eval_sharded(header, todo, lambda p: "Eval vm_compute in (%d, %s)." % p, "c20", shard=10)
     bad = [cases[i] for i, _ in todo if res.get(i) != "true"]
